@@ -104,7 +104,7 @@ def s1090(key, sends, expect_names, fd, close=False, allow_unknown=False, nogap=
 
 
 def sradar(key, sends, n_lines_last, expect_tables, retry=False, disconnect=None, after=None, n_after=0,
-           partial=None, partial_gap=False, nogap=False, send_now=False, extra_argv=()):
+           partial=None, partial_gap=False, nogap=False, send_now=False, extra_argv=(), rst=False):
     """sends: segments with a gap between (nogap: back-to-back sends instead); disconnect: None | 'exit' | 'retry';
     partial: bytes of an incomplete line sent right before the close (partial_gap: a read timeout elapses first);
     after: bytes sent after the reconnect"""
@@ -127,7 +127,7 @@ def sradar(key, sends, n_lines_last, expect_tables, retry=False, disconnect=None
             steps.append({'op': 'send', 'hex': hexs(partial)})
             if partial_gap:
                 steps.append({'op': 'gap', 'n': 2})
-        steps.append({'op': 'close'})
+        steps.append({'op': 'close', 'rst': rst})
         if disconnect == 'exit':
             steps.append({'op': 'wait_exit'})
         else:
@@ -390,6 +390,13 @@ def enumerate_scripts(tier, fd):
                           partial=part, partial_gap=g))
         out.append(sradar('radar|%s|retry' % name, [done] if done else [], k, {'table': tbl_before, 'table2': full_tbl},
                           retry=True, disconnect='retry', after=rest, n_after=3 - k, partial=part, partial_gap=g))
+        # the server aborts the connection (RST) instead of closing it (FIN)
+        if g or not pl:
+            out.append(sradar('radar|%s|retry-rst' % name, [done] if done else [], k, {'table': tbl_before, 'table2': full_tbl},
+                              retry=True, disconnect='retry', after=rest, n_after=3 - k, partial=part, partial_gap=g, rst=True))
+        if not pl:
+            out.append(sradar('radar|%s|noretry-rst' % name, [done] if done else [], k, {'table': tbl_before}, disconnect='exit',
+                              partial=part, partial_gap=g, rst=True))
         if pl and not g:
             # the feed continues at once on the new connection (no read timeout between reconnect and the next line)
             out.append(sradar('radar|%s|retry-now' % name, [done] if done else [], k, {'table': tbl_before, 'table2': full_tbl},
